@@ -35,7 +35,8 @@
       update / update_mut                        (no invalid argument)          blake2_update_mut_ok
     sha3 / keccak contexts                       (no refusal reachable)         sha3_engine_refusals, sha3_public_api_never_reaches_them
     hkdf_extract(.., prk)                        ValidHkdfExtract HashLen n     hkdf_extract_none_iff / _ok
-    hkdf_expand(.., okm)                         ValidHkdfExpand HashLen L      hkdf_expand_none_iff / _ok
+    hkdf_expand(.., prk, .., okm)                ValidHkdfExpand HashLen |prk| L  hkdf_expand_none_iff / _none_iff_lengths / _ok,
+                                                                                hkdf_expand_old_accepts_short_prk (witness, defect (m))
     pbkdf2(mac, salt, c, out)                    ValidPbkdf2 hLen c dkLen       pbkdf2_none_iff, pbkdf2_c0_refused
     ScryptParams::new(log_n, r, p)               ValidScryptParams log_n r p    scrypt_params_none_iff / _ok, scrypt_params_accepts_iff (re-export)
     scrypt(.., params, out)                      ValidScryptOut dkLen           scrypt_none_iff, scrypt_out_refused
@@ -56,8 +57,6 @@
       contain output_bits()."  Every implementation panics on the second call without `reset`
       (`assert!(!self.computed, …)`) and on a buffer LONGER than the digest (`copy_from_slice`): theorems
       `digest_doc_second_result_refused`, `digest_doc_longer_buffer_refused`.  Loud, never a wrong value.
-    * `hkdf_expand` (hkdf.rs): "prk - The pseudorandom key of at least `digest.output_bytes()` octets." is not
-      checked; a shorter PRK is used as the HMAC key (`hkdf_expand_generic` holds for every PRK length).
     * `scrypt` asserts `output.len() / 32 <= 0xffffffff`, which lets (2^32−1)·32 < dkLen ≤ (2^32−1)·32+31 pass; those
       lengths are refused by the PBKDF2 block counter instead (`scrypt_none_iff`): no value is returned.
     * Argon2: `memory_kb` below 8·parallelism is raised silently, tag lengths 1..3 and short salts are accepted —
@@ -441,14 +440,16 @@ section kdf
 open Cx.Impl.Digest Cx.Impl.Hmac Cx.Impl.Kdf Cx.Proofs.MacObj Cx.Proofs.MacHmac Cx.Props.C10
 
 example (L n : Nat) : ValidHkdfExtract L n ↔ n = L := Iff.rfl
-example (L n : Nat) : ValidHkdfExpand L n ↔ n ≤ 255 * L := Iff.rfl
+example (L k n : Nat) : ValidHkdfExpand L k n ↔ (L ≤ k ∧ n ≤ 255 * L) := Iff.rfl
+example (L k n : Nat) : ¬ ValidHkdfExpand L k n ↔ (k < L ∨ 255 * L < n) := by unfold ValidHkdfExpand; omega
 example (L c n : Nat) : ValidPbkdf2 L c n ↔ (0 < c ∧ n ≤ (2 ^ 32 - 1) * L) := Iff.rfl
 example (log_n r p : Nat) : ValidScryptParams log_n r p ↔
     (0 < r ∧ 0 < p ∧ 0 < log_n ∧ log_n < 64 ∧ log_n < 16 * r ∧ r * p < 2 ^ 30 ∧
       128 * r * 2 ^ log_n < 2 ^ 64 ∧ 128 * r * p < 2 ^ 64) := Iff.rfl
 example (n : Nat) : ValidScryptOut n ↔ (0 < n ∧ n ≤ (2 ^ 32 - 1) * 32) := Iff.rfl
 example : ValidHkdfExtract 32 32 ∧ ¬ ValidHkdfExtract 32 31 ∧ ¬ ValidHkdfExtract 32 33 := by decide
-example : ValidHkdfExpand 32 8160 ∧ ¬ ValidHkdfExpand 32 8161 := by decide
+example : ValidHkdfExpand 32 32 8160 ∧ ¬ ValidHkdfExpand 32 32 8161 ∧ ¬ ValidHkdfExpand 32 31 1 ∧ ¬ ValidHkdfExpand 32 0 0 ∧
+    ¬ ValidHkdfExpand 32 1 33 ∧ ValidHkdfExpand 32 33 0 ∧ ValidHkdfExpand 32 64 1 := by decide
 example : ValidPbkdf2 20 1 45 ∧ ¬ ValidPbkdf2 20 0 45 ∧ ¬ ValidPbkdf2 20 1 ((2 ^ 32 - 1) * 20 + 1) := by decide
 example : ValidScryptParams 10 8 16 ∧ ¬ ValidScryptParams 16 1 1 ∧ ¬ ValidScryptParams 0 1 1 ∧ ¬ ValidScryptParams 4 0 1 ∧
     ¬ ValidScryptParams 4 1 0 ∧ ¬ ValidScryptParams 1 (2 ^ 15) (2 ^ 15) ∧ ¬ ValidScryptParams 64 8 1 := by decide
@@ -465,19 +466,41 @@ theorem hkdf_extract_ok {γ : Type} (M : CtxModel γ) (H : Fn) (B L : Nat) (ok :
     (hv : ValidHkdfExtract L prkLen) :
     hkdf_extract (legacyDigest M) (Legacy.new M) salt ikm prkLen = some (Spec.Kdf.hkdfExtract H B salt ikm) :=
   Cx.Proofs.Refusal.hkdf_extract_ok M H B L ok hC salt ikm prkLen hk h1 h2 hv
+/-- `hkdf_expand` refuses (panics: `assert!(prk.len() >= digest.output_bytes())` / the `checked_add` of the one-byte block
+    counter) exactly the calls outside the documented domain: a PRK shorter than HashLen, an output longer than 255·HashLen -/
 theorem hkdf_expand_none_iff {γ : Type} (M : CtxModel γ) (H : Fn) (B L : Nat) (ok : Bytes → Prop)
     (hC : HkdfCorrect M H B L ok) (prk info : Bytes) (okmLen : Nat) (hk : prk.length ≤ B ∨ ok prk)
     (hok : ∀ x : Bytes, x.length ≤ L + info.length + 1 →
       ok (ikey H B prk ++ x) ∧ ok (okey H B prk ++ H (ikey H B prk ++ x))) :
-    hkdf_expand (legacyDigest M) (Legacy.new M) prk info okmLen = none ↔ ¬ ValidHkdfExpand L okmLen :=
+    hkdf_expand (legacyDigest M) (Legacy.new M) prk info okmLen = none ↔ ¬ ValidHkdfExpand L prk.length okmLen :=
   Cx.Proofs.Refusal.hkdf_expand_none_iff M H B L ok hC prk info okmLen hk hok
+/-- … with the two refused length classes spelled out -/
+theorem hkdf_expand_none_iff_lengths {γ : Type} (M : CtxModel γ) (H : Fn) (B L : Nat) (ok : Bytes → Prop)
+    (hC : HkdfCorrect M H B L ok) (prk info : Bytes) (okmLen : Nat) (hk : prk.length ≤ B ∨ ok prk)
+    (hok : ∀ x : Bytes, x.length ≤ L + info.length + 1 →
+      ok (ikey H B prk ++ x) ∧ ok (okey H B prk ++ H (ikey H B prk ++ x))) :
+    hkdf_expand (legacyDigest M) (Legacy.new M) prk info okmLen = none ↔ (prk.length < L ∨ 255 * L < okmLen) :=
+  Cx.Proofs.Refusal.hkdf_expand_none_iff_lengths M H B L ok hC prk info okmLen hk hok
+/-- inside the domain the value is RFC 5869 §2.3's: the first L octets of T(1) ‖ T(2) ‖ … -/
 theorem hkdf_expand_ok {γ : Type} (M : CtxModel γ) (H : Fn) (B L : Nat) (ok : Bytes → Prop)
     (hC : HkdfCorrect M H B L ok) (prk info : Bytes) (okmLen : Nat) (hk : prk.length ≤ B ∨ ok prk)
     (hok : ∀ x : Bytes, x.length ≤ L + info.length + 1 →
       ok (ikey H B prk ++ x) ∧ ok (okey H B prk ++ H (ikey H B prk ++ x)))
-    (hv : ValidHkdfExpand L okmLen) :
-    ∃ okm, hkdf_expand (legacyDigest M) (Legacy.new M) prk info okmLen = some okm :=
+    (hv : ValidHkdfExpand L prk.length okmLen) :
+    hkdf_expand (legacyDigest M) (Legacy.new M) prk info okmLen
+      = some (Spec.Kdf.hkdfOkm (Spec.Hmac.hmac H B) L prk info okmLen) :=
   Cx.Proofs.Refusal.hkdf_expand_ok M H B L ok hC prk info okmLen hk hok hv
+/-- WITNESS of the repaired defect (m) (the correspondence line `kdf.hkdf_expand sha256 0b 696e666f 33`): before
+    `assert!(prk.len() >= digest.output_bytes())` was added, `hkdf_expand` answered a call with a ONE-byte PRK — outside the
+    domain its documentation states ("prk - The pseudorandom key of at least `digest.output_bytes()` octets") — with 33 bytes
+    of output; the repaired function refuses it.  (`hkdf_expand_old` = the function without the assert, Impl/Kdf.lean;
+    generic form: `Props.C10.hkdf_expand_old_generic`.) -/
+theorem hkdf_expand_old_accepts_short_prk :
+    ¬ ValidHkdfExpand 32 ([0x0b] : Bytes).length 33 ∧
+    (∃ okm : Bytes, okm.length = 33 ∧
+      hkdf_expand_old (legacyDigest sha256Ctx) (Legacy.new sha256Ctx) [0x0b] [0x69, 0x6e, 0x66, 0x6f] 33 = some okm) ∧
+    hkdf_expand (legacyDigest sha256Ctx) (Legacy.new sha256Ctx) [0x0b] [0x69, 0x6e, 0x66, 0x6f] 33 = none :=
+  Cx.Proofs.Refusal.hkdf_expand_old_short_prk
 /-- the hypothesis `HkdfCorrect` holds for the wrappers (here the six spelled out in Props/C10) -/
 example : HkdfCorrect sha256Ctx Spec.Sha2.sha256 64 32 Cx.Props.C02.Sha2.ok256 := hkdf_sha256
 example : HkdfCorrect sha1Ctx Spec.Sha1.sha1 64 20 Cx.Props.C02.Sha1Ripemd.ok := hkdf_sha1
